@@ -737,6 +737,8 @@ def rule_C2(ctx):
     ctx.ob("C2", fn, "a sheet that is neither (no tracks) is rejected with BadCueSheet", ok_n, "" if ok_n else det_n, inst="neither-branch")
     ctx.ob("C2", fn, "the decision is taken on the parsed cue sheet", ok_d or ok_a, "", inst="parse-first")
     di = ctx.fn(ACT, "determine_image_type", "C2")
-    t = full(di)
-    ok = "parent_directory = os.path.dirname(file)" in t and "attempt_parse_cue_sheet(lines, parent_directory)" in t
+    from .util import path_call_keys as _pkc
+    fa_ = di.args.args[0].arg
+    cues_ = [k_ for ks_ in _pkc(ctx, di, "C2", ends=("return", "fall", "raise"), include_exc=True, limit=8000) for k_ in ks_ if k_.startswith("attempt_parse_cue_sheet(")]
+    ok = bool(cues_) and all(k_ == f"attempt_parse_cue_sheet(parse_text_file({fa_}),os.path.dirname({fa_}))" for k_ in cues_)
     ctx.ob("C2", di, "the bin file is resolved relative to the cue sheet's directory", ok, "", inst="relative-dir")
